@@ -361,9 +361,10 @@ func TestVerif_C03(t *testing.T) {
 		max3 := vx.Pick(c, 12, 20)
 		byteL := vx.Pick(c, 4, 5)
 		maxStrs := vx.Pick(c, []int{8, 16, 64}, []int{7, 8, 16, 64, 127})
-		c.Rule(fmt.Sprintf("blocks: (A) every sequence of 1..3 fragments of the %d-element fragment alphabet (thorough: the %d-element wide alphabet, plus every 4-sequence over the first 12 fragments), each also with its last fragment cut at every byte (truncated blocks); (C) the real Encoder's output for every 2-operation history over 17 operations, each also with every one of its first 24 bytes xor 01 / xor 80 / set to ff and every truncation to < 24 bytes; (B) every byte string of length 1..%d over {00,01,0f,3f,40,7f,80,82,be,ff}. "+
-			"partitions of each block: every 2-partition including an empty chunk, every 3-partition into non-empty chunks for blocks of <= %d bytes, and one byte per Write; under each of %d decoder configurations (initial/allowed table size, 0-2 preloaded entries, max string length set/unset, emitting on / SetEmitEnabled(false) before the block / disabled by the emit callback at the first field of the block; the emit function is replaced with SetEmitFunc after the preload and again before the follow-up). Each partition is compared with the single-Write run of the same configuration: block success/failure, emitted fields, white-box dynamic table (entries, size, maxSize), and - when the block succeeded - the outcome and fields of a follow-up block, fed in one Write with emitting re-enabled, that references every dynamic index the Decoder then has (at most 8); saveBuf empty after Close. The fragment alphabet is that of C02 plus literals whose string content is itself a table-changing representation sequence. non-trivial = block whose single-Write run emitted a field or changed the table or was retained in saveBuf by some partition", len(c03Fragments(false)), len(c03Fragments(true)), byteL, max3, len(cfgs)))
+		c.Rule(fmt.Sprintf("blocks: (A) every sequence of 1..3 fragments of the %d-element fragment alphabet (thorough: the %d-element wide alphabet, plus every 4-sequence over the first 12 fragments), each also with its last fragment cut at every byte (truncated blocks); (C) the real Encoder's output for every 2-operation history over 17 operations, each also with every one of its first 24 bytes xor 01 / xor 80 / set to ff and every truncation to < 24 bytes; (B) every byte string of length 1..%d over {00,01,0f,3f,40,7f,80,82,be,ff}; (D) for every max string length n in %v: every literal representation (incremental indexing / without indexing / never indexed) with a literal name and a literal value both drawn (every pair) from the %d strings whose lengths straddle n - not Huffman coded of 1, n-1, n, n+1 octets; Huffman coded with encoded = decoded length n-1, n, n+1 (8-bit codes); Huffman coded with decoded length n-1, n, n+1 and a shorter encoding (5-bit codes); Huffman coded with encoded length n-1, n, n+1 and a shorter decoded string (24-bit codes) - and with the name from static index 1 and every such value; each alone, followed by an indexed field, and preceded by one; run under SetMaxStringLength(n) (table 4096 / 40, 0 / 2 preloaded entries, each emit mode) and without a max string length. "+
+			"partitions of each block: every 2-partition including an empty chunk, every 3-partition into non-empty chunks for blocks of <= %d bytes, and one byte per Write (so every split position of the long blocks of (D) is a 2-partition); (A)-(C) under each of %d decoder configurations (initial/allowed table size, 0-2 preloaded entries, max string length set/unset, emitting on / SetEmitEnabled(false) before the block / disabled by the emit callback at the first field of the block; the emit function is replaced with SetEmitFunc after the preload and again before the follow-up). Each partition is compared with the single-Write run of the same configuration: block success/failure, emitted fields, white-box dynamic table (entries, size, maxSize), and - when the block succeeded - the outcome and fields of a follow-up block, fed in one Write with emitting re-enabled, that references every dynamic index the Decoder then has (at most 8); saveBuf empty after Close. The fragment alphabet is that of C02 plus literals whose string content is itself a table-changing representation sequence. non-trivial = block whose single-Write run emitted a field or changed the table or was retained in saveBuf by some partition", len(c03Fragments(false)), len(c03Fragments(true)), byteL, maxStrs, len(c03BoundaryStrings(maxStrs[0])), max3, len(cfgs)))
 		c.Assume("after the first error of a block the decoder is not used again (callers must tear the connection down); the success/failure of a block is compared, not which error value is returned")
+		c.Assume("part (D) uses shortest-form integers only: literals whose string length prefixes are redundantly padded (possible only for lengths >= 127), combined with a max string length, are not enumerated")
 		c.Assume("purely differential: a defect that misbehaves identically for every partition is invisible here by construction")
 
 		var runs atomic.Int64
@@ -473,6 +474,14 @@ func TestVerif_C03(t *testing.T) {
 			vx.Strings(c03Fragments(false)[:12], 4, 4, func(seq []c02Frag) bool { return genFragSeq(seq, yield) })
 		}, check)
 
+		// (D) literals whose name/value lengths straddle the max string length
+		vx.Enumerate(c, "max-string-length-boundary", vx.Opts{}, func(yield func(c03Case) bool) {
+			for _, n := range maxStrs {
+				if !c03BoundaryBlocks(n, yield) {
+					return
+				}
+			}
+		}, check)
 		// (C) encoder output, intact and damaged
 		vx.Enumerate(c, "encoder-output", vx.Opts{}, func(yield func(c03Case) bool) {
 			for _, cs := range c03EncoderBlocks() {
@@ -503,14 +512,6 @@ func TestVerif_C03(t *testing.T) {
 							return
 						}
 					}
-				}
-			}
-		}, check)
-		// (D) literals whose name/value lengths straddle the max string length
-		vx.Enumerate(c, "max-string-length-boundary", vx.Opts{}, func(yield func(c03Case) bool) {
-			for _, n := range maxStrs {
-				if !c03BoundaryBlocks(n, yield) {
-					return
 				}
 			}
 		}, check)
